@@ -155,14 +155,17 @@ var extraRules = map[string][]string{
 	"coded-read-error-kept":        {"C04", "C06", "C15"},
 	"body-read-failure-classified": {"C15", "C06"},
 	// round-9 rules and sharing
-	"procedure-same-fn":                                   {"C17"},
-	"wire-code-not-clamped":                               {"C02", "C06"},
-	"handler-receive-does-not-flush":                      {"C11", "C05"},
-	"error-encoders-do-not-write-the-error":               {"C13", "C02"},
-	"write-ignores-stored-error":                          {"C14", "C02"},
-	"rejections-leave-the-body-alone":                     {"C14", "C07"},
-	"gen-names-from-goname":                               {"C17"},
-	"gen-baseurl-trimright":                               {"C17"},
+	"procedure-same-fn":                     {"C17"},
+	"wire-code-not-clamped":                 {"C02", "C06"},
+	"handler-receive-does-not-flush":        {"C11", "C05"},
+	"error-encoders-do-not-write-the-error": {"C13", "C02"},
+	"write-ignores-stored-error":            {"C14", "C02"},
+	"rejections-leave-the-body-alone":       {"C14", "C07"},
+	"gen-names-from-goname":                 {"C17"},
+	"gen-baseurl-trimright":                 {"C17"},
+	// round-10 rules
+	"ctx-classifier-sees-raw-error":                       {"C06", "C15"},
+	"gen-filename-clean":                                  {"C17"},
 	"code-text-only-names-and-code-n":                     {"C18", "C06"},
 	"status-message-verbatim":                             {"C19", "C02"},
 	"end-stream-trailers-before-error-meta":               {"C19", "C11", "C02"},
